@@ -310,6 +310,94 @@ def context_wrap(ctx, name, inner):
     raise ValueError("context " + ctx)
 
 
+def render_vmodule(case, cx):
+    """Visitor.tla module (tree of items) -> statements.  Every JSX site is written as
+    `($out.sN = <site>)` so that its value is observable wherever it occurs; nested functions,
+    arrows and classes are invoked right after their declaration so that their sites run."""
+    sites = list(case["sites"])
+    if '"k": "assign"' in json.dumps(case["module"]):
+        cx.lets.add("a")
+        cx.bind("a", {"t": "pvnode", "id": "pva"}, "let")
+        cx.vals["a2"] = {"t": "pvnode", "id": "pva2"}
+    pos = [0]
+    ctr = [0]
+
+    def fresh(prefix):
+        ctr[0] += 1
+        return f"{prefix}{ctr[0]}"
+
+    def site_expr():
+        s = sites[pos[0]]
+        pos[0] += 1
+        return f'($out.{s["id"]} = {elem(s["elem"], cx)})'
+
+    def item_expr(it):
+        k = it["k"]
+        if k == "site":
+            return site_expr()
+        if k == "assign":
+            return "a = " + (site_expr() if it["rhs"]["k"] == "site" else "$v(\"a2\")")
+        if k == "arrow":
+            return "() => " + item_expr(it["item"])
+        raise ValueError("item in expression position: " + k)
+
+    def calls(it):
+        n = 1
+        while it["k"] == "arrow" and it["item"]["k"] == "arrow":
+            n += 1
+            it = it["item"]
+        return "()" * n
+
+    def stmts(items, ind):
+        out = []
+        pad = "  " * ind
+        for it in items:
+            k = it["k"]
+            if k in ("site", "assign"):
+                if k == "assign":
+                    cx.lets.add("a")
+                    cx.bind("a", {"t": "pvnode", "id": "pva"}, "let")
+                    cx.vals["a2"] = {"t": "pvnode", "id": "pva2"}
+                out.append(pad + item_expr(it) + ";")
+            elif k == "plain":
+                out.append(pad + "$out.p = 1;")
+            elif k == "userdecl":
+                u = fresh("u")
+                out.append(pad + f'const {it["name"]} = "user{it["name"]}"; $out.{u} = {it["name"]};')
+            elif k == "fn":
+                g = fresh("g")
+                out.append(pad + f"function {g}() {{")
+                out += stmts(it["body"], ind + 1)
+                out.append(pad + f"}} {g}();")
+            elif k == "fnparam":
+                g = fresh("d")
+                out.append(pad + f"function {g}(p = {site_expr()}) {{")
+                out += stmts(it["body"], ind + 1)
+                out.append(pad + f"}} {g}();")
+            elif k == "arrow":
+                g = fresh("w")
+                out.append(pad + f"const {g} = {item_expr(it)}; {g}{calls(it)};")
+            elif k == "arrowblock":
+                g = fresh("b")
+                out.append(pad + f"const {g} = () => {{")
+                out += stmts(it["body"], ind + 1)
+                out.append(pad + f"}}; {g}();")
+            elif k == "block":
+                out.append(pad + "{")
+                out += stmts(it["body"], ind + 1)
+                out.append(pad + "}")
+            elif k == "classfield":
+                g = fresh("K")
+                out.append(pad + f"class {g} {{ f = {site_expr()}; }} new {g}();")
+            else:
+                raise ValueError("vmodule item " + k)
+        return out
+
+    body = stmts(case["module"], 0)
+    body.append("export const $all = $out;")
+    return body
+
+
 def opts_json(o):
     d = {
         "transformOn": o["transformOn"], "optimize": o["optimize"], "mergeProps": o["mergeProps"],
@@ -326,7 +414,11 @@ def render_case(case):
     body = []
     exports = []
     lang = case.get("lang", "jsx")
-    for it in case["items"]:
+    if "module" in case and "sites" in case:
+        body += render_vmodule(case, cx)
+        exports.append({"name": "$all", "kind": "value"})
+        cx.env["$out"] = {"k": "value", "rv": {"t": "obj", "es": []}}
+    for it in case.get("items", []):
         k = it["k"]
         if k == "export_jsx":
             src, kind = context_wrap(it.get("ctx", "module"), it["name"], elem(it["elem"], cx))
